@@ -62,11 +62,14 @@ def _single_exit(g) -> Optional[str]:
     # several returns: each must sit in if / else structure only
     ok = True
 
+    bare = [r for r in rets if r.value is None]
+    proc = len(bare) == len(rets)   # a procedure: every return is a bare `return`
+
     def walk(stmts, inside_other):
         nonlocal ok
         for st in stmts:
             if isinstance(st, ast.Return):
-                if inside_other or st.value is None:
+                if inside_other or (st.value is None and not proc):
                     ok = False
             elif isinstance(st, ast.If):
                 walk(st.body, inside_other)
@@ -80,6 +83,8 @@ def _single_exit(g) -> Optional[str]:
                     for h in st.handlers:
                         walk(h.body, True)
     walk(body, False)
+    if ok and proc:
+        return "proc"
     return "multi" if ok and _all_paths_return(body) else None
 
 
@@ -206,7 +211,7 @@ def inline_new_helpers(project, ref) -> int:
         if kind in ("expr", "tail"):
             val = body[-1].value
             body = body[:-1]
-        elif kind == "multi" and make is not None:
+        elif kind in ("multi", "proc") and make is not None:
             body = _returns_to_assign(body, make)
             if body is None:
                 return None, None
@@ -297,6 +302,8 @@ def inline_new_helpers(project, ref) -> int:
             def stmt_level(st, call, hit):
                 """the statements replacing st when `call` (the whole value of st) is inlined; None if not possible"""
                 g, kind, m = hit
+                if kind == "proc" and not isinstance(st, ast.Expr):
+                    return None
                 if isinstance(st, ast.Return):
                     if kind == "multi":
                         body, _ = instantiate(g, kind, m, st.lineno, make=None)   # returns stay returns
@@ -313,6 +320,9 @@ def inline_new_helpers(project, ref) -> int:
                     st.value = val if val is not None else ast.Constant(value=None)
                     return pre + [st]
                 if isinstance(st, ast.Expr):
+                    if kind == "proc":
+                        body, _ = instantiate(g, kind, m, st.lineno, make=lambda v, at: [])   # a bare return just ends the helper: what followed it moves into the other arm
+                        return body
                     if kind == "multi":
                         body, _ = instantiate(g, kind, m, st.lineno, make=lambda v, at: [ast.copy_location(ast.Expr(value=v), at)])
                         return body
